@@ -69,12 +69,11 @@ static void sevset_case(void)
  * plus "*" and the missing-dot form (1808 concrete expressions, every one executed by the verifier) */
 void h_log_sevset(void)
 {
-    static struct set_node *tn;
+    /* a typed file-scope node (a malloc(a + b) byte array would make every field a byte-level term) */
+    static struct { struct set_node n; struct log_type t; } tnode;
     unsigned o0, s0, o1, s1;
-    tn = malloc(sizeof(struct set_node) + sizeof(struct log_type)); V_ASSUME(tn != NULL);
-    memset(tn, 0, sizeof(struct set_node) + sizeof(struct log_type));
-    ((struct log_type *)set_node_data(tn))->name = "t";
-    log_types.compare = set_compare_charp; log_types.root = tn; log_types.count = 1;
+    tnode.t.name = "t";
+    log_types.compare = set_compare_charp; log_types.root = &tnode.n; log_types.count = 1;
     log_vtables.compare = set_compare_charp;       /* log_init already ran */
     in_expr.star = 1; in_expr.nodot = 0; in_expr.n = 1; sevset_case();
     in_expr.star = 0; in_expr.nodot = 1; in_expr.n = 1; in_expr.op[0] = 0; in_expr.sev[0] = 2; sevset_case();
